@@ -3,5 +3,5 @@
 R=/tmp/seedrepo1.$$; rm -rf $R; git clone -q /repo $R || exit 2
 (cd $R && git apply --3way "$1" 2>&1 | grep -v "^Applied patch\|^Falling back\|^Performing" ) 
 H=""; [ -n "$3" ] && H="--harness $3"
-(cd /verif && VERIF_REPO=$R VERIF_BUDGET_S=280 timeout 900 ./bin/check $2 --tier ${TIER:-quick} $H 2>&1 | grep -E "^(VIOLATION|OK|INCONCLUSIVE|violation)" | cut -c1-260 | head -5)
+(cd /verif && VERIF_REPO=$R VERIF_BUDGET_S=280 timeout 900 ./bin/check $2 --tier ${TIER:-quick} ${WORKERS:+--workers $WORKERS} $H 2>&1 | grep -E "^(VIOLATION|OK|INCONCLUSIVE|violation)" | cut -c1-260 | head -5)
 rm -rf $R
